@@ -179,6 +179,18 @@ CHECKS = {
              "Reference-BLAS contract (column-major, ld >= max(1, stored rows)) is encoded in checks/c13.py and trusted.",
         technique="abstract interpretation of -O2 LLVM IR in a polynomial domain, checked against the reference-BLAS index contract",
     ),
+    "C17": dict(
+        engine="mfacts", category="other",
+        text=("The serialize members of array, static_array, array_ref, subarray and extensions_t (D = 1..2 quick, ..4 thorough) are interpreted on a symbolic archive "
+              "whose every operation is an external event that may overwrite its operand (as loading does). R17.single: one serialize template per class serves both "
+              "directions (no save / load split). R17.extfirst: the extents object is archived first, as first / last of every dimension. R17.resize: on the path where "
+              "the archived extents differ the array is cleared and re-extended to the archived extents object before any element item, on the equal path no storage "
+              "event happens. R17.elems: exactly one make_array(data_elements(), num_elements()) item over the base / layout the array has at that moment. "
+              "R17.view: a view archives for_each over its own elements() range and the per-element action archives exactly the element it is given."),
+        design_ref="DESIGN.md 3/C17", note=ANOTE + " Trusted: the symbolic archive model in checks/c17.py. Not decided: encodings of concrete archives (text / binary / XML), "
+             "element types' own serialize functions, and equality of the reloaded values (follows from the single symmetric traversal only together with the archive's contract).",
+        technique="event-trace rules over abstract interpretation of -O0 LLVM IR against a symbolic archive",
+    ),
     "C18": dict(
         engine="irval", category="other",
         text=("mpi::message(v.elements()) (D = 1..3 quick, ..4 thorough; mutable and const views), create_subarray(layout, old, &new) and mpi::data(iterator) are "
